@@ -176,3 +176,102 @@ Proof.
   - vm_compute. reflexivity.
   - vm_compute. reflexivity.
 Qed.
+
+(* ---------------------------------------------------------------------------------- *)
+(* tie to the source (C02/Source.v): codecV1.ReadHeadBody, codecV2.ReadHeadBody and ReadLenData
+   are regenerated WHOLE from the codec package by tools/gofunc on every run (Generated/CodecHeader.v;
+   io.ReadFull is external: what each call returned and left in its buffer are parameters;
+   error values are codes, 1 = a fresh fmt.Errorf error; V2Header.Len goes through bigEndianGet's
+   [4]byte array and copy; encoding/binary comes from the standard library's source), and the
+   heads of the two WritePacket up to their size checks.  Given a complete header the
+   translated decoder refuses EXACTLY when the model's decoder refuses from the header alone
+   ([refuses_v1] etc. are the guards of the model, see the c02_src_model_guard theorems), before the
+   payload buffer is made; otherwise it returns the header it read and the payload (or the
+   error) of the second read. *)
+From FV Require Import Generated.CodecHeader Lib.GoSem C01.Source C02.Source.
+
+Theorem c02_src_model_guard_v1 : forall s h s1, read_full hs1 s = (Model.Ok h, s1) ->
+  read_head_body_v1 s =
+  if refuses_v1 h then mkRhb (Model.Err ELength) s1 [] [hs1]
+  else let n := (get16 h + 65536 - hs1) mod 65536 in
+       match read_full n s1 with
+       | (Model.Ok payload, s2) => mkRhb (Model.Ok (h, payload)) s2 [n] [hs1; n]
+       | (Model.Err e, s2) => mkRhb (Model.Err e) s2 [n] [hs1; n]
+       | (Model.Panic, s2) => mkRhb Model.Panic s2 [n] [hs1; n]
+       end.
+Proof. exact model_guard_v1. Qed.
+Print Assumptions c02_src_model_guard_v1.
+
+Theorem c02_src_model_guard_v2 : forall s h s1, read_full hs2 s = (Model.Ok h, s1) ->
+  read_head_body_v2 s =
+  if refuses_v2 h then mkRhb (Model.Err ELength) s1 [] [hs2]
+  else let n := (get24 h + 4294967296 - hs2) mod 4294967296 in
+       match read_full n s1 with
+       | (Model.Ok payload, s2) => mkRhb (Model.Ok (h, payload)) s2 [n] [hs2; n]
+       | (Model.Err e, s2) => mkRhb (Model.Err e) s2 [n] [hs2; n]
+       | (Model.Panic, s2) => mkRhb Model.Panic s2 [n] [hs2; n]
+       end.
+Proof. exact model_guard_v2. Qed.
+Print Assumptions c02_src_model_guard_v2.
+
+Theorem c02_src_read_v1 : forall (h : bytes) n1 n2 e2 w2, wf_bytes h -> lenN h = hs1 ->
+  go_codecV1_ReadHeadBody n1 0%Z (zbytes h) n2 e2 w2 =
+  Lib.GoSem.Ok (if refuses_v1 h then ([], [], 1%Z)
+                else if (e2 =? 0)%Z then (zbytes h, w2, 0%Z) else ([], [], e2)).
+Proof. exact src_read_v1. Qed.
+Print Assumptions c02_src_read_v1.
+
+Theorem c02_src_read_v2 : forall (h : bytes) n1 n2 e2 w2, wf_bytes h -> lenN h = hs2 ->
+  go_codecV2_ReadHeadBody n1 0%Z (zbytes h) n2 e2 w2 =
+  Lib.GoSem.Ok (if refuses_v2 h then ([], [], 1%Z)
+                else if (e2 =? 0)%Z then (zbytes h, w2, 0%Z) else ([], [], e2)).
+Proof. exact src_read_v2. Qed.
+Print Assumptions c02_src_read_v2.
+
+(* a failed first read is passed on; nothing else happens *)
+Theorem c02_src_read_err : forall n1 e1 w1 n2 e2 w2, e1 <> 0%Z ->
+  go_codecV1_ReadHeadBody n1 e1 w1 n2 e2 w2 = Lib.GoSem.Ok ([], [], e1) /\
+  go_codecV2_ReadHeadBody n1 e1 w1 n2 e2 w2 = Lib.GoSem.Ok ([], [], e1).
+Proof. intros n1 e1 w1 n2 e2 w2 H. split; [exact (src_read_v1_err n1 e1 w1 n2 e2 w2 H) | exact (src_read_v2_err n1 e1 w1 n2 e2 w2 H)]. Qed.
+Print Assumptions c02_src_read_err.
+
+(* the payload buffer the source allocates has the size the model records in r_allocs *)
+Theorem c02_src_alloc : forall h : bytes, wf_bytes h ->
+  (refuses_v1 h = false -> ((Z.of_N (get16 h) - 14) mod 65536)%Z = Z.of_N ((get16 h + 65536 - hs1) mod 65536)) /\
+  (refuses_v2 h = false -> ((Z.of_N (get24 h) - 20) mod 4294967296)%Z = Z.of_N ((get24 h + 4294967296 - hs2) mod 4294967296)).
+Proof. intros h Hw. split; [exact (src_alloc_v1 h Hw) | exact (src_alloc_v2 h Hw)]. Qed.
+Print Assumptions c02_src_alloc.
+
+Theorem c02_src_read_len : forall (t : bytes) n1 n2 e2 w2, wf_bytes t -> length t = 2%nat ->
+  go_ReadLenData n1 0%Z (zbytes t) n2 e2 w2 =
+  Lib.GoSem.Ok (if refuses_len t then ([], 1%Z) else if (e2 =? 0)%Z then (w2, 0%Z) else ([], e2)).
+Proof. exact src_read_len. Qed.
+Print Assumptions c02_src_read_len.
+
+(* the encoders refuse an oversized frame / too many references where the model's write_v1 /
+   write_v2 do (max1 <? hs1 + |body|, max_u8 <? |refs|, max2 <? hs2 + 4|refs| + |body|) *)
+Theorem c02_src_write_guard_v1 : forall thr (body : list Z), (go_len body < 2 ^ 62)%Z ->
+  match go_codecV1_WritePacket_prefix thr body 0%Z with
+  | Lib.GoSem.Ok (Lib.GoSem.Returned _ _) => max1 <? hs1 + N.of_nat (length body) = true
+  | Lib.GoSem.Ok (Lib.GoSem.Reached (b, _, nbytes, _, _)) =>
+      max1 <? hs1 + N.of_nat (length body) = false /\ b = body /\ nbytes = Z.of_N (hs1 + N.of_nat (length body))
+  | _ => False
+  end.
+Proof. exact src_write_guard_v1. Qed.
+Print Assumptions c02_src_write_guard_v1.
+
+Theorem c02_src_write_guard_v2 : forall thr (refs body : list Z), (go_len body < 2 ^ 61)%Z ->
+  match go_codecV2_WritePacket_prefix thr refs body 0%Z with
+  | Lib.GoSem.Ok (Lib.GoSem.Returned k _) =>
+      if (k =? 1)%Z then max_u8 <? N.of_nat (length refs) = true
+      else max_u8 <? N.of_nat (length refs) = false /\
+           max2 <? hs2 + N.of_nat (length refs) * 4 + N.of_nat (length body) = true
+  | Lib.GoSem.Ok (Lib.GoSem.Reached (_, b, _, nn, nbytes, buf)) =>
+      max_u8 <? N.of_nat (length refs) = false /\
+      max2 <? hs2 + N.of_nat (length refs) * 4 + N.of_nat (length body) = false /\
+      b = body /\ nn = Z.of_N (hs2 + N.of_nat (length refs) * 4) /\
+      nbytes = Z.of_N (hs2 + N.of_nat (length refs) * 4 + N.of_nat (length body)) /\ length buf = Z.to_nat nn
+  | _ => False
+  end.
+Proof. exact src_write_guard_v2. Qed.
+Print Assumptions c02_src_write_guard_v2.
